@@ -203,4 +203,11 @@ def r05_6(ctx):
     ctx.floor('R05.6', 3, 3)
 
 
-RULES = [('R05.1', r05_1), ('R05.2', r05_2), ('R05.3', r05_3), ('R05.4', r05_4), ('R05.5', r05_5), ('R05.6', r05_6)]
+def r05_refused(ctx):
+    """However the calls are interleaved: a feeding call that is refused (an item that is no byte) is no call at all - the bytes
+    taken in before it are still there when the stream goes on (shared with C04 R04.1)."""
+    from . import c04
+    ctx.borrow(lambda c: c04.r04_guard(c, 'R05.7'), 'R05.7')
+
+
+RULES = [('R05.7', r05_refused), ('R05.1', r05_1), ('R05.2', r05_2), ('R05.3', r05_3), ('R05.4', r05_4), ('R05.5', r05_5), ('R05.6', r05_6)]
